@@ -15,6 +15,7 @@ import AferoVerif.Engine.CopyFault
 import AferoVerif.Engine.Archive
 import AferoVerif.Engine.Sftp
 import AferoVerif.Engine.Gcs
+import AferoVerif.Engine.Walk
 open AferoVerif
 
 partial def loop {σ : Type} (h : IO.FS.Stream) (out : IO.FS.Stream) (step : σ → String → σ × String) (s : σ) : IO Unit := do
@@ -42,4 +43,5 @@ def main (args : List String) : IO UInt32 := do
   | ["archive"] => loop stdin stdout Engine.Archive.stepLine Engine.Archive.init; return 0
   | ["sftp"] => loop stdin stdout Engine.Sftp.stepLine Engine.Sftp.init; return 0
   | ["gcs"] => loop stdin stdout Engine.Gcs.stepLine {}; return 0
+  | ["walk"] => loop stdin stdout Engine.Walk.stepLine []; return 0
   | _ => IO.eprintln "usage: driver <engine>"; return 2
